@@ -77,7 +77,7 @@ Record attempt := mkAtt {
 Record payment := mkPay {
   value : N; atts : list attempt; reason : option N }.
 
-(* association list keyed by payment hash, kept sorted by key *)
+(* association list keyed by payment hash *)
 Definition store := list (N * payment).
 
 Definition with_out (a : attempt) (o : outcome) : attempt :=
@@ -227,13 +227,12 @@ Fixpoint lookup (s : store) (h : N) : option payment :=
   | (k, p) :: r => if k =? h then Some p else lookup r h
   end.
 
+(* replace in place, else append (the enumeration order of the real stores is
+   canonicalised by sorting FetchInFlightPayments answers by hash) *)
 Fixpoint put (s : store) (h : N) (p : payment) : store :=
   match s with
   | [] => [(h, p)]
-  | (k, q) :: r =>
-    if h <? k then (h, p) :: (k, q) :: r
-    else if h =? k then (h, p) :: r
-    else (k, q) :: put r h p
+  | (k, q) :: r => if k =? h then (h, p) :: r else (k, q) :: put r h p
   end.
 
 Definition remove (s : store) (h : N) : store :=
@@ -424,6 +423,15 @@ Definition non_terminal (b : backend) (p : payment) : bool :=
            || existsb is_inflight (atts p)
   end.
 
+(* answers are compared sorted by payment hash *)
+Fixpoint insert_by_key (x : N * proj) (l : list (N * proj)) : list (N * proj) :=
+  match l with
+  | [] => [x]
+  | y :: r => if fst x <=? fst y then x :: y :: r else y :: insert_by_key x r
+  end.
+Definition sort_by_key (l : list (N * proj)) : list (N * proj) :=
+  fold_right insert_by_key [] l.
+
 Definition do_inflight (b : backend) (s : store) : store * resp :=
   let scanned := match b with
                  | KV => s
@@ -431,8 +439,9 @@ Definition do_inflight (b : backend) (s : store) : store * resp :=
                  end in
   if forallb (fun kp => sent_ok (snd kp)) scanned
   then (s, mkResp EOk None
-             (map (fun kp => (fst kp, mk_proj (snd kp)))
-                  (filter (fun kp => non_terminal b (snd kp)) s)))
+             (sort_by_key
+               (map (fun kp => (fst kp, mk_proj (snd kp)))
+                    (filter (fun kp => non_terminal b (snd kp)) s))))
   else (s, r_err ESentExceedsTotal).
 
 Definition step (b : backend) (s : store) (o : op) : store * resp :=
